@@ -13,6 +13,7 @@ implementation's observations, (6) on any break searches for / shrinks a concret
 
 Exit 0: property held on everything explored.  Exit 1: `VIOLATION property=<id> replay=<path>`.
 """
+import fcntl
 import importlib.util
 import json
 import os
@@ -120,7 +121,9 @@ class Ctx:
         if gen:
             gen(self)
         targets = list(getattr(self.prop, "LEAN_TARGETS", [f"RreModel.{self.pid}.Theorems"])) + ["drv_" + self.low]
-        rc, out, err = run(["lake", "build"] + targets, cwd=LEAN)
+        with open(os.path.join(LEAN, ".lake.lock"), "w") as lk:   # one lake build at a time in this tree
+            fcntl.flock(lk, fcntl.LOCK_EX)
+            rc, out, err = run(["lake", "build"] + targets, cwd=LEAN)
         log(f"[{self.pid}] lake build rc={rc} {time.time()-t:.1f}s")
         if rc != 0:
             msg = "\n".join(l for l in (out + err).splitlines() if "error" in l or "sorry" in l)[:4000]
